@@ -8,6 +8,7 @@ import Nsq.Model.ToFileDisc
 import Nsq.Model.ToFileMain
 import Nsq.Model.ToNsqLoop   -- relay sub-builder (C20 round 6): to_nsq main loop
 import Nsq.Model.RelayOpts   -- relay sub-builder (C20 round 6): option surface of nsq_to_http / nsq_to_nsq
+import Nsq.Model.RelayAudit7 -- C20 audit round 7 (sub-builder c20b): n2n histories, to_nsq refusal, GET endpoint
 /-! Driver for engine E8 (tools): one operation per input line, one canonical answer line out.
 
 `tf …`  nsq_to_file router model (stateful: conf / pre / events / tree)
@@ -19,6 +20,7 @@ import Nsq.Model.RelayOpts   -- relay sub-builder (C20 round 6): option surface 
 `td …`  nsq_to_file TopicDiscoverer (stateful: new / upd / tick-err / hup / term)
 `lp …`  to_nsq main loop (throttle / EOF / Stop) under a given schedule      [relay block]
 `opt …` relay option surface: hdr / req / args / pass / wl / topic / hmark / nmark [relay block]
+`a7 …`  C20 audit round 7: n2n-hist / refuse / get                                  [audit7-b block]
 -/
 open Nsq Nsq.Line
 
@@ -122,6 +124,9 @@ def stepLine (d : E8.D) (line : String) : String × E8.D :=
   | "lp" :: ws => (Nsq.Model.ToNsqLoop.driverLine ws, d)
   | "opt" :: ws => (Nsq.Model.RelayOpts.driverLine ws, d)
   -- ---- end of relay block ----
+  -- ---- audit7-b block (C20 audit round 7, sub-builder c20b) ----
+  | "a7" :: ws => (Nsq.Model.RelayAudit7.driverLine ws, d)
+  -- ---- end of audit7-b block ----
   | _ => ("bad-op", d)
 
 partial def loop (h : IO.FS.Stream) (out : IO.FS.Stream) (d : E8.D) : IO Unit := do
